@@ -195,6 +195,8 @@ func (o opDef) String() string {
 		return "fire-due-timer"
 	case 4:
 		return "reload-same-rule"
+	case 6:
+		return "reload-of-resource-other-percentage"
 	}
 	return "reload-other-percentage"
 }
@@ -262,15 +264,20 @@ func (s *scen) Apply(i int) (string, string) {
 		s.now += o.tick
 		env.Clock.SetMs(s.now)
 		return "", ""
-	case 4, 5:
-		if o.kind == 5 {
+	case 4, 5, 6:
+		if o.kind == 5 || o.kind == 6 {
 			if s.pct == s.cfg.Pct {
 				s.pct = 1.0
 			} else {
 				s.pct = s.cfg.Pct
 			}
 		}
-		if _, err := outlier.LoadRules([]*outlier.Rule{mkRule("svc", s.pct, s.cfg.Active, s.cfg.Healthy)}); err != nil {
+		if o.kind == 6 {
+			// the per-resource load path
+			if _, err := outlier.LoadRuleOfResource("svc", mkRule("svc", s.pct, s.cfg.Active, s.cfg.Healthy)); err != nil {
+				return "", "reload failed: " + err.Error()
+			}
+		} else if _, err := outlier.LoadRules([]*outlier.Rule{mkRule("svc", s.pct, s.cfg.Active, s.cfg.Healthy)}); err != nil {
 			return "", "reload failed: " + err.Error()
 		}
 		return "", s.nodesCheck(o)
@@ -450,7 +457,7 @@ func mkOps() []opDef {
 	for j := range nodes {
 		ops = append(ops, opDef{kind: 0, node: j}, opDef{kind: 1, node: j})
 	}
-	ops = append(ops, opDef{kind: 2, tick: retryMs}, opDef{kind: 2, tick: recycleS * 1000}, opDef{kind: 3}, opDef{kind: 4}, opDef{kind: 5})
+	ops = append(ops, opDef{kind: 2, tick: retryMs}, opDef{kind: 2, tick: recycleS * 1000}, opDef{kind: 3}, opDef{kind: 4}, opDef{kind: 5}, opDef{kind: 6})
 	return ops
 }
 
